@@ -111,6 +111,8 @@ func (q *vfQ) Write(p []byte) (int, error) {
 	if idx == q.failWrite {
 		if q.failPartial < n {
 			n = q.failPartial
+		} else if n > 0 {
+			n-- // a Write that reports an error never delivered everything
 		}
 		err = errVfWrite
 		q.wfailed = true
